@@ -37,7 +37,8 @@ SPEC = dict(
 
 DETERMINISM_SLICE = 12
 BW_GRAPHS = ("saved", "nosaved", "mixed", "shared-trunk")
-MTL_GRAPHS = ("saved-saved", "nosaved-nosaved", "saved-nosaved", "nosaved-saved")
+WIDE_M = 300
+MTL_GRAPHS = ("saved-saved", "nosaved-nosaved", "saved-nosaved", "nosaved-saved", "saved-penalty")
 
 
 def _events(tier, length_total, m):
@@ -63,6 +64,12 @@ def gen_cases(tier, seed):
                     for first in range(len(ev)):
                         block = [h for h in hs if h[0] == first]
                         cases.append(dict(ep=ep, graph=g, m=m, L=L, hist=[[list(ev[i]) for i in h] for h in block], seed=seed))
+    # 300 rows in one sweep (added after a seeded change - vmap's own sub-chunking capped at 256 rows, so that the last sweep ran
+    # twice with the caller's flag - was missed): histories of <= 2 events, k in {None, 7, 300, 1000}
+    ev = [("T", k, r) for k in (None, 7, WIDE_M, 1000) for r in (False, True)] + [("A", None, False)]
+    for first in ev:
+        hist = [[list(first)]] + [[list(first), list(e)] for e in ev]
+        cases.append(dict(ep="bw", graph="wide", m=WIDE_M, L=2, hist=hist, seed=seed))
     return cases
 
 
@@ -72,7 +79,10 @@ def _bw_graph(kind, m):
 
     a = torch.tensor([0.7, -1.3, 2.1][:m] + [0.4] * max(0, m - 3), dtype=torch.float64, requires_grad=True)
     b = torch.tensor(1.5, dtype=torch.float64, requires_grad=True)
-    if kind == "saved":
+    if kind == "wide":
+        a = torch.linspace(-1.0, 2.0, m, dtype=torch.float64).requires_grad_()
+        outs = [a * a * b]
+    elif kind == "saved":
         outs = [a * b, (a * a).sum()]
     elif kind == "nosaved":
         outs = [a + b, a.sum() + 2 * b]
@@ -92,12 +102,17 @@ def _mtl_graph(kind, m):
     b = torch.tensor(1.5, dtype=torch.float64, requires_grad=True)
     trunk, head = kind.split("-")
     f = a * b if trunk == "saved" else a + b
-    ps, losses = [], []
+    ps, losses, extras = [], [], []
     for i in range(m):
         p = torch.tensor([0.5 + i, -1.0, 2.0 - i], dtype=torch.float64, requires_grad=True)
         ps.append(p)
-        losses.append((f * p).sum() if head == "saved" else (f + p).sum())
-    return dict(params=[a, b], feats=[f], losses=losses, tparams=[[p] for p in ps])
+        if head == "penalty":  # a parameter-only branch with saved tensors next to the branch through the features
+            pen = (p * p).sum()
+            losses.append((f * p).sum() + pen)
+            extras.append((f"penalty{i}", pen, [p]))
+        else:
+            losses.append((f * p).sum() if head == "saved" else (f + p).sum())
+    return dict(params=[a, b], feats=[f], losses=losses, tparams=[[p] for p in ps], extras=extras)
 
 
 def _try(fn):
@@ -117,13 +132,14 @@ def _apply(ep, G, ev, torchjd_side):
     if ep == "bw":
         allp = G["params"]
         if kind == "T" and torchjd_side:
-            return _try(lambda: backward(G["outs"], Sum(), inputs=allp, retain_graph=r, parallel_chunk_size=k))
+            # positional form of the documented signature (tensors, aggregator, inputs, retain_graph, parallel_chunk_size)
+            return _try(lambda: backward(G["outs"], Sum(), allp, r, k))
         gts = [torch.ones_like(o) for o in G["outs"]]
         return _try(lambda: torch.autograd.backward(G["outs"], grad_tensors=gts, inputs=allp, retain_graph=r))
     allp = G["params"] + [p for tp in G["tparams"] for p in tp]
     if kind == "T" and torchjd_side:
-        return _try(lambda: mtl_backward(G["losses"], G["feats"], Sum(), tasks_params=G["tparams"], shared_params=G["params"],
-                                         retain_graph=r, parallel_chunk_size=k))
+        # positional form (losses, features, aggregator, tasks_params, shared_params, retain_graph, parallel_chunk_size)
+        return _try(lambda: mtl_backward(G["losses"], G["feats"], Sum(), G["tparams"], G["params"], r, k))
     return _try(lambda: torch.autograd.backward(G["losses"], inputs=allp, retain_graph=r))
 
 
@@ -144,6 +160,8 @@ def _probes(ep, G):
                                                                   retain_graph=True, allow_unused=True))))
         out.append(("full", _try(lambda: torch.autograd.grad(G["losses"], G["params"], grad_outputs=[torch.ones_like(L) for L in G["losses"]],
                                                                  retain_graph=True, allow_unused=True))))
+        for name, t_, ins in G.get("extras", []):
+            out.append((name, _try(lambda t_=t_, ins=ins: torch.autograd.grad(t_, ins, retain_graph=True, allow_unused=True))))
     return out
 
 
